@@ -60,6 +60,30 @@ func runC19(c *Ctx) {
 			bf := b.Parent()
 			key := fname(bf) + ":body-read-pinned"
 			ok, saw := c.derivesOnlyFrom(bs.stream, isH, 0, map[ssa.Value]bool{})
+			if !(ok && saw) {
+				// the stream kept in a field of the message between the two steps: every store to that field on
+				// the read path stores the stream the header read reported
+				if tn, fld, _, isF := flow.FieldOf(flow.Peel(bs.stream)); isF && tn == "Message" {
+					n, all := 0, true
+					for f := range rp {
+						flow.Instrs(f, func(in ssa.Instruction) {
+							st, isSt := in.(*ssa.Store)
+							if !isSt {
+								return
+							}
+							if t2, f2, _, ok2 := flow.FieldOf(st.Addr); ok2 && t2 == tn && f2 == fld {
+								n++
+								if o, s2 := c.derivesOnlyFrom(st.Val, isH, 0, map[ssa.Value]bool{}); !o || !s2 {
+									all = false
+								}
+							}
+						})
+					}
+					if n > 0 && all {
+						ok, saw = true, true
+					}
+				}
+			}
 			// and the header read happens first: the body read is not reachable without it
 			r.Check(ok && saw, "R1", key, c.pos(b), "the body is read with ReadAtLeast(…, stream) where, through every call path, stream is the stream the header read reported", "the stream passed to the body read is not (on every path) the one the header read reported ("+short(bs.stream.String(), 40)+"): body bytes can be taken from another stream than the header's")
 		}
